@@ -346,6 +346,12 @@ func (e *c11Env) second(done <-chan struct{}, cancel func(), responder string, a
 		stop := e.stopOn(done)
 		entered := false
 		for _, from := range arrivals {
+			// every reporter first sends a FAIL message for the session: the retry-phase watcher was given no coordinator
+			// and must ignore it, whoever sends it
+			if r := cm.deliver(e.sid, comm.TssFailMsg, from, []byte{}, stop); r == "done" {
+				entered = true
+				break
+			}
 			r := cm.deliver(e.sid, comm.TssReadyMsg, from, []byte{}, stop)
 			if r == "done" {
 				entered = true
@@ -393,13 +399,19 @@ func (e *c11Env) second(done <-chan struct{}, cancel func(), responder string, a
 		} else if responder != "-" {
 			stop := e.stopOn(done)
 			from := c07Peer(responder)
+			// fail messages while the second attempt is being set up — also one from the peer that is about to start it —
+			// are ignored (the watcher handleError starts knows no coordinator)
+			cm.deliver(e.sid, comm.TssFailMsg, from, []byte{}, stop)
 			if bully {
 				// this relayer follows the re-elected coordinator: BEFORE that one speaks, the other peers of the scenario —
-				// the excluded culprit among them — send their own initiate and start messages; all must be ignored
+				// the excluded culprit among them — send their own fail, initiate and start messages; all must be ignored
 				early, _ := message.MarshalStartMessage([]byte("px"))
 				for _, p := range arrivals {
 					if p == from || p == e.self {
 						continue
+					}
+					if r := cm.deliver(e.sid, comm.TssFailMsg, p, []byte{}, stop); r != "ok" {
+						break
 					}
 					if r := cm.deliver(e.sid, comm.TssInitiateMsg, p, []byte{}, stop); r != "ok" {
 						break
@@ -625,6 +637,12 @@ func (f *c11First) drive(done <-chan struct{}, t int) (run1 string, runMark int,
 			if r := cm.deliverMsg(msg, stop, true); r != "ok" {
 				break
 			}
+			// … and its start message (it already runs a replacement attempt of its own): ignored as well
+			foreignStart, _ := message.MarshalStartMessage([]byte("px"))
+			msg = &comm.WrappedMessage{MessageType: comm.TssStartMsg, SessionID: sid, Payload: foreignStart, From: from}
+			if r := cm.deliverMsg(msg, stop, true); r != "ok" {
+				break
+			}
 			select {
 			case <-stop:
 			case <-time.After(c11SilentTimeout / 6):
@@ -708,6 +726,13 @@ func c11Await(ch <-chan struct{}) {
 }
 
 func init() {
+	// defaults => the time-outs NewCoordinator sets (nanoseconds): init=<InitiatePeriod>;coord=<CoordinatorTimeout>;tss=<TssTimeout>
+	ops["C11.defaults"] = func(a []string) string {
+		h := c07NewHost(c07Peers[0], c07Peers[:3])
+		cm := c07NewComm()
+		co := tss.NewCoordinator(h, cm, elector.VerifC11NewFactory(h, cm, relayer.BullyConfig{}))
+		return "init=" + itoa(int(co.InitiatePeriod)) + ";coord=" + itoa(int(co.CoordinatorTimeout)) + ";tss=" + itoa(int(co.TssTimeout))
+	}
 	// retryable <kind> => 1|0: what the repository's own process object (built by its own constructor) answers
 	ops["C11.retryable"] = func(a []string) string {
 		if c11RealProcess(a[0], c07Peers[0], 1, "s", c07Peers[:3]).Retryable() {
@@ -802,6 +827,7 @@ func c11Shapes(k string) []string {
 func genC11(g *G) {
 	defer genC11Real(g)
 	// what the six real process objects answer to Retryable(), and a failing first attempt of each through the real Execute
+	g.Emit("defaults")
 	kinds := []string{"ecdsa-keygen", "ecdsa-signing", "ecdsa-resharing", "frost-keygen", "frost-signing", "frost-resharing"}
 	for i, k := range kinds {
 		g.Emit("retryable", k)
